@@ -31,6 +31,20 @@ let rec p_value () =
   | '@' -> VInst (nat_of_int (num t)) | '&' -> VPtr (nat_of_int (num t)) | '^' -> VPtrInt (z_of_int (num t))
   | _ -> failwith ("value " ^ t)
 
+(* a value position: a literal value or "K<j>.<f> A.." = concat onto the empty prefix of field f of v<j>;
+   resolved against the model's current state by the extracted `resolve` *)
+let cur_state = ref init_state
+let p_vexpr () : value =
+  let t = !toks.(!pos) in
+  if t.[0] = 'K' then begin
+    incr pos;
+    let body = String.sub t 1 (String.length t - 1) in
+    let (j, f) = (match String.split_on_char '.' body with
+      | [a; b] -> (int_of_string a, int_of_string b) | _ -> failwith ("K token " ^ t)) in
+    let l = (match p_value () with VArr l -> l | _ -> failwith "K needs an array") in
+    resolve !cur_state (EConcatEmpty (nat_of_int j, nat_of_int f, l))
+  end else resolve !cur_state (EVal (p_value ()))
+
 let p_key () =
   let t = next () in
   match t.[0] with
@@ -48,16 +62,16 @@ let p_step (s : string) : op =
   | "Dx" | "Dn" | "De" -> let s = p_nat () in DeclareBad s     (* malformed: extra argument / no array / no field *)
   | "D" | "Dq" -> let s = p_nat () in let n = p_int () in
     Declare (s, times n (fun () -> let f = nat_of_int (num (next ())) in let t = p_texpr () in (f, t)))
-  | "C" -> let id = p_nat () in let s = p_nat () in let n = p_int () in
-    Construct (id, s, times n (fun () -> let k = p_key () in let v = p_value () in (k, v)))
+  | "C" | "Ca" | "Cf" -> let id = p_nat () in let s = p_nat () in let n = p_int () in
+    Construct (id, s, times n (fun () -> let k = p_key () in let v = p_vexpr () in (k, v)))
   | "W" -> let r = (match next () with "h" -> RHset | "d" -> RDot | "x" -> RInfix | "l" -> RSel | "j" | "k" | "q" -> RIdx | r -> failwith ("route " ^ r)) in
-    let id = p_nat () in let k = p_key () in let v = p_value () in Write (r, id, k, v)
+    let id = p_nat () in let k = p_key () in let v = p_vexpr () in Write (r, id, k, v)
   | "N" -> let id = p_nat () in let f = nat_of_int (num (next ())) in let g = nat_of_int (num (next ())) in
-    let v = p_value () in Nested (id, f, g, v)
+    let v = p_vexpr () in Nested (id, f, g, v)
   | "X" -> let id = p_nat () in let k = p_key () in Delete (id, k)
-  | "R" -> let id = p_nat () in let v = p_value () in DerefSet (id, v)
+  | "R" -> let id = p_nat () in let v = p_vexpr () in DerefSet (id, v)
   | "P" -> let pid = p_nat () in let id = p_nat () in TakePtr (pid, id)
-  | "S" -> let pid = p_nat () in let v = p_value () in DerefSetP (pid, v)
+  | "S" -> let pid = p_nat () in let v = p_vexpr () in DerefSetP (pid, v)
   | "J" | "M" -> let ko = p_int () = 1 in let id = p_nat () in let s = p_nat () in let n = p_int () in
     Decode (ko, id, s, times n (fun () -> let f = nat_of_int (num (next ())) in let v = p_value () in (f, v)))
   | t -> failwith ("step " ^ t)
@@ -101,6 +115,7 @@ let () =
       let st = ref init_state in
       let mo = Buffer.create 256 and so = Buffer.create 256 in
       List.iteri (fun k s ->
+        cur_state := !st;
         let o = p_step s in
         let (oc, st') = step !st o in
         let (sv, sst) = spec_step !st o in
